@@ -16,12 +16,14 @@ def scenario(rng, k, tier):
     wildcard = rng.random() < 0.5
     ssrcs = [rng.randrange(2, 1 << 32) for _ in range(3)]
     p = rand_policy(rng, ssrc=ssrcs[0], valid=True, allow_cryptex=False)
-    if p.rtp[5] & 2 == 0 or p.rtp[4] == 0 or p.rtp[2] != HMAC:
-        p.rtp = p.rtp[:2] + (HMAC, 20, 10, 3)         # the property is about authenticated streams
-    if p.rtp[4] < 4:
-        p.rtp = p.rtp[:4] + (10,) + p.rtp[5:]
-    if p.rtcp[4] < 4 or p.rtcp[2] != HMAC:
-        p.rtcp = p.rtcp[:2] + (HMAC, 20, 10, 3)
+    aead = p.rtp[0] in (GCM128, GCM256)              # AES-GCM always authenticates (tag 16 or 8)
+    if not aead:
+        if p.rtp[5] & 2 == 0 or p.rtp[4] == 0 or p.rtp[2] != HMAC:
+            p.rtp = p.rtp[:2] + (HMAC, 20, 10, 3)         # the property is about authenticated streams
+        if p.rtp[4] < 4:
+            p.rtp = p.rtp[:4] + (10,) + p.rtp[5:]
+        if p.rtcp[4] < 4 or p.rtcp[2] != HMAC:
+            p.rtcp = p.rtcp[:2] + (HMAC, 20, 10, 3)
     L = []
     if wildcard:
         L += [p.line(1, ssrc_type=SSRC_ANY_OUT), p.line(2, ssrc_type=SSRC_ANY_IN), "create 1 1", "create 2 2", "create 3 2"]
@@ -137,4 +139,7 @@ def monitor(script, c):
 def families(tier, seed):
     rng = random.Random(seed * 1000 + 13)
     n = 12 if tier == "quick" else 150
-    return [Family("twin-sessions", [(f"twin-{k}", scenario(rng, k, tier)) for k in range(n)], monitor=monitor)]
+    rng2 = random.Random(seed * 1000 + 113)
+    n2 = 6 if tier == "quick" else 80
+    return [Family("twin-sessions", [(f"twin-{k}", scenario(rng, k, tier)) for k in range(n)], monitor=monitor),
+            Family("gcm-twin-sessions", [(f"gtwin-{k}", with_aead(scenario, rng2, k, tier)) for k in range(n2)], monitor=monitor, config="openssl")]
